@@ -64,6 +64,15 @@ func name(i, n int) string {
 	}
 	if n%2 == 0 {
 		if i >= n {
+			// a name that no script has - also one that differs from a member's name only by blanks at its ends
+			switch n {
+			case 4:
+				return "lib.p "
+			case 6:
+				return "\tmy-lib.p"
+			case 8:
+				return "\nlib.p\n"
+			}
 			return "b.p"
 		}
 		if i == 0 {
@@ -84,7 +93,8 @@ func name(i, n int) string {
 func text(s script, n int, variant int) (string, []int) {
 	switch s.K {
 	case kUnparsable:
-		return []string{"x = = 1", "a[", "y = 1\nz = \"unterminated", "if x { use(\"s0.p\") "}[variant%4], nil
+		// one error; and texts in which the parser records several (a grammar error, later a character the lexer refuses)
+		return []string{"x = = 1", "a[", "y = 1\nz = \"unterminated", "if x { use(\"s0.p\") ", "a b\nc = 1 $ 2", "x = = 1\ny = = 2\nz = \"open", "f(\n) )\n@"}[variant%7], nil
 	case kCheckFail:
 		// failures at different depths of the expression tree: the script's own error has 1, 2, 3, 4 positions
 		return []string{"y = 2\nnosuch()", "y = 2\nx = len(nosuch())", "x = len(len(nosuch()))", "if true {\n  z = [1, {\"k\": len(len(len(nosuch2())))}]\n}", "for i in [1] { add_key() }", "x = 1\nbreak", "for i in [1] { }\nif true { continue }", "for ;; { for e in [1] { nosuch() } }", "x = pval(pval(pval(pval(pval(nosuch()))))))"[:40] + ")"}[variant%9], nil
